@@ -13,10 +13,16 @@
    conf   := - | C <ver: -|NAT> <project: -|s<hex>> <workspace_dir: -|s<hex>>
    doc    := - | D <wire object>
    blob   := - | b<hex>
-   result := ok | unableToLoad | tooNew | failed<N> | noConfig | noPath -/
+   result := ok | unableToLoad | tooNew | failed<N> | noConfig | noPath
+
+   vgate <hex>      -> ok | incompatible | valueError
+        `_check_schema_compatibility` on the configured `schema_version` STRING (hex-encoded
+        UTF-8; no argument = the empty string): int() then the comparison.
+   pyint <hex>      -> none | <integer>          Python's int(<string>), none = ValueError -/
 import Signac.Wire
 import Signac.Migration
 import Signac.Discovery
+import Signac.PyInt
 open Signac Signac.Mig
 
 def parseOptNat (s : String) : Option (Option Nat) :=
@@ -140,8 +146,31 @@ def showOut (r : Except Disc.Err Disc.Path × List Disc.Step) : String :=
 def parseCfgTok (s : String) : Option (Option (Option Nat)) :=
   if s = "-" then some none else if s = "n" then some (some none) else s.toNat?.map (fun v => some (some v))
 
+def showGateS : PyInt.GateS → String
+  | .ok => "ok"
+  | .incompatible => "incompatible"
+  | .valueError => "valueError"
+
+def showPyInt : Option Int → String
+  | none => "none"
+  | some v => toString v
+
+/-- the string argument of `vgate` / `pyint`: one hex token, or nothing for "" -/
+def parseStrArg : List String → Option String
+  | [] => some ""
+  | [hx] => unhex hx
+  | _ => none
+
 def stepMig (line : String) : String :=
   match tokens line with
+  | "vgate" :: ts =>
+    match parseStrArg ts with
+    | some s => showGateS (PyInt.gateStr s)
+    | none => "bad-value"
+  | "pyint" :: ts =>
+    match parseStrArg ts with
+    | some s => showPyInt (PyInt.pyInt s)
+    | none => "bad-value"
   | ["gate", c, r, w] =>
     match parseCfgTok c, parseOptNat r, parseBool w with
     | some c, some r, some w =>
